@@ -932,9 +932,29 @@ def small_ideal(h, rng, ngens=None):
     return gs
 
 
+def spoly_cases(rng, n):
+    """the exported S-polynomial function: value, zero operands (InputValue), other rings, erroneous operands"""
+    L = []
+    for _ in range(n):
+        desc = field_desc(*rng.choice(SMALL_Q[:14]))
+        h = H(rng, desc, bspec=bspec(rng), snap=True)
+        f = nonzero_bpoly(h, rng, box=4); g = nonzero_bpoly(h, rng, box=4)
+        z = h.newb(); h.ops.append("%s=zero@0" % z)
+        o = h.bpoly(nterms=2, box=3, ring=2)
+        bad = h.newb(); h.ops.append("%s=plus %s %s" % (bad, f, o))
+        pairs = [(f, g), (g, f), (f, f), (z, f), (f, z), (z, z), (f, o), (o, f), (bad, f), (f, bad), (o, o)]
+        rng.shuffle(pairs)
+        for (a, b) in pairs[:rng.randrange(4, 9)]:
+            r = h.newb(); h.ops.append("%s=spoly %s %s" % (r, a, b))
+        h.ops.append("obs %s" % f); h.ops.append("obs %s" % g)
+        L.append(h.line())
+    return L
+
+
 def gen_C11(rng, tier):
     L = []
     n = 700 if tier == "thorough" else 150
+    L += spoly_cases(rng, 120 if tier == "thorough" else 30)
     for _ in range(n):
         desc = field_desc(*rng.choice(SMALL_Q[:14]))
         h = H(rng, desc, bspec=bspec(rng))
@@ -1611,6 +1631,7 @@ def gen_C17(rng, tier):
     L = []
     big = tier == "thorough"
     L += long_chain_cases(rng, 60 if big else 15)
+    L += spoly_cases(rng, 60 if big else 15)
     L += gen_setvar(rng, 400 if big else 80)
     L += overflow_cases(rng, 80 if big else 20)
     # (a) invalid requests and sticky chains, snapshot after every op
